@@ -20,6 +20,7 @@
   and that `inventories` of a reshape is an object (one entry per provider uuid).
   Helper lemmas: `Placement/Lemmas/Alloc*.lean`.
 -/
+import Placement.Lemmas.GuardTie
 import Placement.Lemmas.AllocInvariant
 import Placement.Lemmas.AllocExample
 
